@@ -83,6 +83,7 @@ func c11Classic(c *vlib.Ctx) {
 			}
 		}
 		ageReleased, limitReleased := 0, 0
+		prevQueued := map[[2]int]int{} // queued pages per (connection, direction) after the previous call
 		audit := func(ev *asm.Ev) {
 			snap := tcpassembly.VerifPoolSnapshot(pool)
 			used := tcpassembly.VerifPagesUsed(a)
@@ -101,6 +102,11 @@ func c11Classic(c *vlib.Ctx) {
 				pk := pagesOf(len(ev.Seg.Data))
 				if len(skips) > 0 {
 					limitReleased++
+					// a gap may be passed over inside Assemble only because a limit is reached: with only the per-connection
+					// limit set, what the connection had queued before this packet plus the packet itself must reach it
+					if q := prevQueued[[2]int{ev.Seg.Conn, ev.Seg.Dir}]; h.PerConnLimit > 0 && h.TotalLimit == 0 && q+pk < h.PerConnLimit {
+						r.viol("limit-release-below-the-limit", fmt.Sprintf("a gap was skipped inside Assemble although the connection had %d pages queued before this %d-page packet, limit %d", q, pk, h.PerConnLimit))
+					}
 				}
 				if h.PerConnLimit > 0 {
 					for _, v := range snap {
@@ -154,6 +160,14 @@ func c11Classic(c *vlib.Ctx) {
 				}
 			}
 			skips = skips[:0]
+			for k := range prevQueued {
+				delete(prevQueued, k)
+			}
+			for _, v := range snap {
+				if s, ok := v.Stream.(*cstream); ok {
+					prevQueued[[2]int{s.conn, s.dir}] = v.QueuedPages
+				}
+			}
 		}
 		if pi := r.play(a, audit); pi != nil {
 			c.Violation(pi.Key, "assembler panicked: "+pi.Value, map[string]any{"stack": pi.Stack})
